@@ -101,7 +101,9 @@ Record outcome (sp : spec) (k : kind) (u : updfn) (w w' : world) (e wr : bool) :
            (st_phase (v_st w) = PhNone /\ w_st w' = init_status sp (v_st w));
   oc_fault : e = true -> w_st w' = w_st w \/ (st_phase (v_st w) = PhNone /\ w_st w' = init_status sp (v_st w));
   oc_silent : wr = false -> w_st w' = w_st w;
-  oc_spec : w_spec w' = w_spec w
+  oc_spec : w_spec w' = w_spec w;
+  (* the API server's phase follows the cache's (no status reaches the cache without reaching the API server) *)
+  oc_agree : st_phase (w_st w) = st_phase (v_st w) -> st_phase (w_st w') = st_phase (v_st w')
 }.
 
 Lemma kept_core_refl : forall s, kept_core s s.
@@ -947,3 +949,107 @@ Example running_boundary_example :
   total_task_min sp = s_min sp /\ st_phase (running_sync sp s) = PhFailed /\
   st_phase (running_sync (mkSpec (s_tasks sp) 1 None 3 []) s) = PhCompleted.
 Proof. vm_compute. repeat split. Qed.
+
+(* ---------- the phase sequence the API SERVER shows, over every history ---------- *)
+Definition phase_agree (w : world) : Prop := st_phase (w_st w) = st_phase (v_st w).
+
+Lemma acted_api_phase : forall w a w' e wr,
+  phase_agree w -> acted w a w' e wr ->
+  phase_agree w' /\ In (st_phase (w_st w')) (allowed (st_phase (w_st w))).
+Proof.
+  intros w a w' e wr Hag O. pose proof (phase_transition_allowed_gen _ _ _ _ _ O) as Hal.
+  unfold acted in O. pose proof (oc_agree _ _ _ _ _ _ _ O Hag) as Hag'. split; [exact Hag'|].
+  unfold phase_agree in *. rewrite Hag', Hag. exact Hal.
+Qed.
+
+Lemma allowed_refl : forall p, In p (allowed p).
+Proof. destruct p; cbn; tauto. Qed.
+
+Lemma step_api_phase : forall w o w' e wr,
+  phase_agree w -> same_job o -> step w o = (w', e, wr) ->
+  phase_agree w' /\ In (st_phase (w_st w')) (allowed (st_phase (w_st w))).
+Proof.
+  intros w o w' e wr Hag Hsj H. destruct o; cbn in H;
+    try (inversion H; subst; clear H; unfold phase_agree in *; cbn; split; [assumption|apply allowed_refl]).
+  - exact (acted_api_phase _ _ _ _ _ Hag (step_req_outcome _ _ _ _ _ _ H)).
+  - inversion H; subst; clear H. destruct (w_pg w); unfold phase_agree in *; cbn; split; auto using allowed_refl.
+  - destruct (c_job (v_ctl w) && negb (c_dirty (v_ctl w))); inversion H; subst; clear H;
+      unfold phase_agree in *; cbn; split; auto using allowed_refl.
+  - destruct Hsj.
+  - destruct (fire_outcome _ _ _ _ H) as (a & e0 & O). exact (acted_api_phase _ _ _ _ _ Hag O).
+Qed.
+
+(* every consecutive pair of a phase sequence is a transition of the relation *)
+Fixpoint phase_chain (p : phase) (l : list phase) : Prop :=
+  match l with [] => True | q :: r => In q (allowed p) /\ phase_chain q r end.
+
+Definition api_phases (w : world) (ops : list op) : list phase :=
+  map (fun x => st_phase (w_st (fst (fst x)))) (trace w ops).
+
+(* over EVERY history of requests, timers, pod / PodGroup events, deliveries in any order, stale
+   deliveries, restarts, spec updates and faults (the job not being replaced by a new one of the
+   same name): the phase visible on the API server moves only along the transition relation *)
+Theorem api_phase_history : forall ops w,
+  Forall same_job ops -> phase_agree w -> phase_chain (st_phase (w_st w)) (api_phases w ops).
+Proof.
+  induction ops as [|o ops IH]; intros w Hsj Hag; [exact I|].
+  inversion Hsj as [|? ? Ho Hsj']; subst. unfold api_phases. cbn [trace map].
+  destruct (step w o) as [[w1 e] wr] eqn:Hs. cbn [fst].
+  destruct (step_api_phase w o w1 e wr Hag Ho Hs) as [Hag1 Hal]. split; [exact Hal|].
+  apply IH; assumption.
+Qed.
+
+Example api_phase_history_nonvacuous :
+  phase_agree f2_world /\
+  api_phases f2_world [OReq sync_req []; OFire; ORestart; OSyncJob] = [PhCompleted; PhCompleted; PhCompleted; PhCompleted] /\
+  let w := init_world one_task_spec (mkStatus PhNone 0 0 0 c0 0 [] true false) [] None in
+  api_phases w [OReq sync_req []; OPgPhase PgRunning; OSyncPg; OReq sync_req []; OPodPhase 1 0 PSucceeded; OSyncPods;
+                OReq sync_req []; OReq sync_req []] =
+  [PhPending; PhPending; PhPending; PhPending; PhPending; PhPending; PhRunning; PhCompleted].
+Proof. split; [reflexivity|]. split; vm_compute; reflexivity. Qed.
+
+(* ---------- [allowed] against the only DOCUMENTED transition table of the repository ----------
+   docs/design/job-api.md 171-177 gives a table over the five stable phases of the original API (Pending,
+   Aborted, Running, Completed, Terminated) and calls Restarting / Aborting / Terminating temporary.
+   [sreach]: the stable phases reachable from a stable phase through temporary ones along [allowed];
+   [beyond]: those of them the documented table leaves empty.  The code (and therefore [allowed]) goes
+   beyond the table exactly by: Failed (added later, with maxRetry), Pending -> Completed / Terminated
+   (CompleteJob / TerminateJob on a pending job) and Running -> Pending (restart, or fewer running pods) *)
+Definition temporary (p : phase) : bool :=
+  match p with PhRestarting | PhAborting | PhCompleting | PhTerminating => true | _ => false end.
+Fixpoint sreach (fuel : nat) (p : phase) : list phase :=
+  flat_map (fun q => if temporary q then match fuel with S f => sreach f q | O => [] end else [q]) (allowed p).
+Definition doc_table (p : phase) : list phase :=
+  match p with
+  | PhPending => [PhPending; PhAborted; PhRunning]
+  | PhAborted => [PhPending; PhAborted]
+  | PhRunning => [PhAborted; PhRunning; PhCompleted; PhTerminated]
+  | PhCompleted => [PhCompleted]
+  | PhTerminated => [PhTerminated]
+  | _ => []
+  end.
+Definition beyond (p : phase) : list phase :=
+  nodup phase_eq_dec (filter (fun q => negb (phase_in q (doc_table p))) (sreach 4 p)).
+Example allowed_vs_documented_table :
+  map (fun p => (p, beyond p)) [PhPending; PhAborted; PhRunning; PhCompleted; PhTerminated] =
+  [(PhPending, [PhFailed; PhCompleted; PhTerminated]); (PhAborted, [PhFailed]); (PhRunning, [PhPending; PhFailed]);
+   (PhCompleted, []); (PhTerminated, [])].
+Proof. vm_compute. reflexivity. Qed.
+
+(* ---------- non-vacuity of the version theorems (audit W5): a Running job whose only pod fails under a
+   PodFailed -> RestartJob policy: the kill bumps the version 0 -> 1 on the API server and in the cache;
+   the same event carried by a request of version 0 is now answered by a sync, one of version 1 restarts ---------- *)
+Definition ver_spec : spec := mkSpec [mkTask 1 1 (Some 1) [] None] 1 None 3 [mkPolicy [EPodFailed] ARestartJob None 0].
+Definition ver_world : world :=
+  init_world ver_spec (mkStatus PhRunning 0 0 1 (mkC 0 1 0 0 0) 0 [(1%positive, mkC 0 1 0 0 0)] false false)
+    [mkPod 1 0 PRunning false false] (Some PgRunning).
+Definition ver_req (v : Z) : req := mkReq EPodFailed None (Some 1%positive) (Some (1%positive, 0)) 0 v 2.
+Example version_example :
+  let w1 := run ver_world [OReq (ver_req 0) []] in
+  Forall same_job [OReq (ver_req 0) []] /\ st_version (w_st ver_world) <= st_version (v_st ver_world) /\
+  st_version (w_st ver_world) = 0 /\ st_version (w_st w1) = 1 /\ st_version (v_st w1) = 1 /\
+  st_phase (w_st w1) = PhRestarting /\ st_retry (w_st w1) = 1 /\
+  r_action (ver_req 0) = None /\ r_version (ver_req 0) < st_version (v_st w1) /\
+  apply_policies ver_spec (v_st w1) (ver_req 0) = ASync /\
+  apply_policies ver_spec (v_st w1) (ver_req 1) = ARestartJob.
+Proof. cbv zeta. split; [repeat constructor|]. vm_compute. repeat split; congruence. Qed.
